@@ -61,3 +61,37 @@ Fixpoint ordered (lo : nat) (l : list tree) : bool :=
 Fixpoint wf (t : tree) : bool :=
   let 'Node _ s e k := t in
   Nat.leb s e && ordered s k && forallb (fun c => Nat.leb (en c) e) k && forallb wf k.
+
+(* ---- find_in_loc: the first highest-level node that lies entirely inside a span ----
+   self inside the span: self. Otherwise the walk over the descendants: a node that starts before the span is passed over
+   (the walk goes on into it), a node that also ends inside the span is the answer, any other node (it starts inside and ends
+   behind) becomes the current node and the walk restarts below it. *)
+Definition inside (t : tree) (a b : nat) : bool := Nat.leb a (st t) && Nat.leb (en t) b.
+
+Inductive verdict_in := NotFound | Found (t : tree) | Below (t : tree).
+
+Fixpoint scan_in (fuel : nat) (a b : nat) (todo : list tree) : verdict_in :=
+  match fuel with
+  | 0 => NotFound
+  | S f =>
+      match todo with
+      | [] => NotFound
+      | x :: rest =>
+          if Nat.ltb (st x) a then scan_in f a b (kids x ++ rest)
+          else if Nat.leb (en x) b then Found x
+          else Below x
+      end
+  end.
+
+Fixpoint descend_in (fuel : nat) (a b : nat) (self : tree) : option tree :=
+  match fuel with
+  | 0 => None
+  | S f => match scan_in (S (sizes (kids self))) a b (kids self) with
+           | NotFound => None
+           | Found x => Some x
+           | Below x => descend_in f a b x
+           end
+  end.
+
+Definition find_in (root : tree) (a b : nat) : option nat :=
+  if inside root a b then Some (nid root) else option_map nid (descend_in (size root) a b root).
